@@ -177,6 +177,20 @@ class SubDep(ht.HTMLDependency):
     """A user subclass of HTMLDependency is a dependency like any other."""
 
 
+class CellsList(list):
+    """A list subclass that can display itself."""
+
+    def _repr_html_(self):
+        return "<table>...</table>"
+
+
+class PairTuple(tuple):
+    """A tuple subclass (think of a namedtuple) with a tagify() method."""
+
+    def tagify(self):
+        return ht.TagList(*self)
+
+
 class OwnCtorDep(ht.HTMLDependency):
     """The usual way a component library ships its assets: a subclass with its own constructor signature and a field of its own."""
 
@@ -483,7 +497,10 @@ def build_attr_value(v):
         return {"date": lambda: _dt.date(2024, 2, 29), "datetime": lambda: _dt.datetime(2024, 2, 29, 12, 30), "time": lambda: _dt.time(12, 30),
                 "path": lambda: _pl.PurePosixPath("a/b.png"), "list": lambda: ["a", "b"], "tuple": lambda: ("a", "b"), "dict": lambda: {"k": "v"}, "bytes": lambda: b"raw",
                 "object": object, "set": lambda: {"a"}, "fraction": lambda: __import__("fractions").Fraction(1, 2), "decimal": lambda: __import__("decimal").Decimal("1.5"),
-                "complex": lambda: 1j, "callable": lambda: (lambda: "x"), "uuid": lambda: __import__("uuid").UUID(int=5), "timedelta": lambda: _dt.timedelta(seconds=90)}[v["v"]]()
+                "complex": lambda: 1j, "callable": lambda: (lambda: "x"), "uuid": lambda: __import__("uuid").UUID(int=5), "timedelta": lambda: _dt.timedelta(seconds=90),
+                # library objects where a value is expected (the labelled control itself for for=, a fragment, a dependency)
+                "tag": lambda: ht.Tag("input", id="email", type="email"), "taglist": lambda: ht.TagList("email"), "dep": lambda: ht.HTMLDependency("d", "1.0"),
+                "tagfunction": lambda: ht.tags.input}[v["v"]]()
     raise ValueError(t)
 
 
@@ -595,6 +612,10 @@ def _build(r):
             return kids
         if t == "tuple":
             return tuple(kids)
+        if t == "listrepr":
+            return CellsList(kids)       # a list subclass that notebooks can display: still a list of children
+        if t == "tupletf":
+            return PairTuple(kids)       # a tuple subclass with a tagify() method: still a tuple of children
         return ht.TagList(*kids)
     if k == "tag":
         return build_tag(r)
